@@ -326,10 +326,12 @@ pub fn props_of(case: &CaseRec, p: &PresRec) -> Vec<String> {
     if case.unaltered {
         if p.exp == "ok" {
             v.push(if public { "C02" } else { "C01" }.to_string());
-            if case.mint.f != p.f {
+            // the accepting side of C05 / C06: the right footer / assertion opens the token - a token that
+            // carries one (or a presentation that spells "none" differently) speaks for these properties too
+            if case.mint.f != p.f || !["none", "empty"].contains(&case.mint.f.as_str()) {
                 v.push("C05".into());
             }
-            if case.mint.a != p.a {
+            if case.mint.a != p.a || !["none", "empty"].contains(&case.mint.a.as_str()) {
                 v.push("C06".into());
             }
         } else {
